@@ -35,6 +35,8 @@ def run(ctx):
     D.rule_accept_guard(res, "C01-R4", dm)
     D.rule_reject_reasons(res, "C01-R4", dm)
     D.rule_declared_length(res, "C01-R4", dm)
+    D.rule_segment_ends_walk(res, "C01-R4", dm)
+    D.rule_segment_plumbing(res, "C01-R4", dm)
     res.floor("C01-R1", 1, n1)
     res.floor("C01-R4", 25)
     res.floor("C01-R2", 9)
